@@ -1,5 +1,7 @@
 import Mimium.Proofs.Pretty
 import Mimium.Proofs.NewlineRule
+import Mimium.Proofs.CstPrintRender
+import Mimium.Model.CstGrammar
 /-!
 # C14 — The formatter never changes a program, loses no comment, and is idempotent
 
@@ -24,6 +26,18 @@ in `Model/Pretty.lean` and tied to the crate by exact comparison on random docum
   (the postfix openers); inserting line breaks anywhere else — after an infix operator, before one (`|>`),
   after a comma, inside brackets — never changes the tree.  `C14_linebreak_tests_vacuous`: the two
   `has_trailing_linebreak()` tests in `parse_expr_with_precedence` do nothing (it equals its `_no_linebreak` twin).
+
+* The per-construct printer `cst_print.rs` IS modelled now (`Model/CstPrint.lean`, literal port of every `print_*` function; tie = the
+  rendered text equals the real `pretty_print_cst` at 8 widths × 2 indents on every input of the run).  Section `Mimium.CstPrint` below:
+  `C14_format_content` — on the decidable class `keepsAll` (no loop of the printer skips a child, overwrites a slot or appends out of
+  order; `Model/CstPrintSpec.lean`) the text leaves of the document are, after `norm` (commas erased: the printer re-creates them; the
+  `{` of a block is a literal; added spaces are layout), exactly the tokens of the tree in order, each between its leading and trailing
+  comments.  `C14_format_rendered_content`, `C14_format_width_independent_content`: the rendered text has these leaves at every width and
+  indent.  `C14_no_comment_lost`, `C14_comments_in_order`, `C14_token_sequence_preserved_partial` are the corollaries.  Outside the
+  class the printer does lose content: `C14_one_tuple_comma_comment_lost`, `C14_paren_type_in_tuple_type_dropped` prove it on the model
+  for two inputs that are replayed on the real formatter in every run (findings in `known_findings.jsonl`).  NOT proved: that every
+  error-free parse tree without these shapes is in `keepsAll` (evaluated by the driver on every text of the run instead), and the
+  re-tokenisation of the output (no two printed tokens merge) — hence `_partial`.
 
 The three clauses of the statement themselves are decided by the correspondence stage with the real parser and
 the real formatter (see `tools/props/c14.py`); the defects it finds are listed in `known_findings.jsonl`.
@@ -165,3 +179,133 @@ example : (stmts [.atom, .op 7, .atom] (fun i => i == 2) 4 0).length = 1 := by d
 example : (stmts [.atom, .op 2, .atom] (fun i => i == 1) 4 0).length = 1 := by decide +kernel
 
 end Mimium.NewlineRule
+
+
+/-! ## The printer (`cst_print.rs`, `Model/CstPrint.lean`) -/
+namespace Mimium.CstPrint
+open Mimium.Gen (Kind SK)
+open Mimium.Cst (Green)
+open Mimium.Pretty (renderP toks stripLayout)
+
+/-- The port is a port of what is in `/repo` now: every function of `cst_print.rs` has the body hash of the reviewed list
+`tools/cst_print.json`.  ANY edit of the printer breaks this `decide` (and the check falls through to the correspondence search). -/
+theorem C14_printer_functions_pinned : Mimium.Gen.printFns = Mimium.Gen.printFnsPinned := by decide
+
+/-- the `match kind` of `cst_to_doc`, re-extracted with forwarding functions resolved, is the model's `dispatch` -/
+theorem C14_printer_dispatch :
+    Mimium.Gen.allSK.map (fun k => (Mimium.Gen.skNames.getD k.toNat "", (dispatch k).rustName)) = Mimium.Gen.printDispatch ∧
+    Mimium.Gen.allSK.map (fun k => Mimium.Gen.skOfNat k.toNat) = Mimium.Gen.allSK.map some := by decide +kernel
+
+/-- CONTENT, every tree / token kinds / trivia maps: in the class `keepsAll` the normalised text leaves of the document `cst_to_doc`
+builds are exactly: for every token leaf of the tree, in order, its leading comments, the token, its trailing comments. -/
+theorem C14_format_content (c : Ctx) (g : Green) (h : keepsAll c g = true) : content c (cstToDoc c g) = expected c g :=
+  format_content_aux c g h
+
+/-- the same for the document `pretty_print` renders -/
+theorem C14_format_content_doc (ks : List Kind) (pre : Preparse.Result) (g : Green) (h : keepsAll ⟨ks.toArray, pre⟩ g = true) :
+    content ⟨ks.toArray, pre⟩ (formatS ks pre g) = expected ⟨ks.toArray, pre⟩ g :=
+  format_content_aux _ g h
+
+/-- what the layout engine writes, minus layout, is the leaf sequence of the printer's document — for every width and indent size,
+EVERY tree (no class needed) -/
+theorem C14_format_rendered_content (ks : List Kind) (pre : Preparse.Result) (g : Green) (ind : Nat) (txt : Nat → Nat × String) (w : Nat) :
+    toks (renderP w (formatDoc ks pre g ind txt)) = (formatS ks pre g).leaves.map (leafText txt) := by
+  rw [Mimium.Pretty.C14_render_content, formatDoc, texts_toDoc]
+
+/-- the token and comment content of the formatted text does not depend on the line width nor on the indent size -/
+theorem C14_format_width_independent_content (ks : List Kind) (pre : Preparse.Result) (g : Green) (txt : Nat → Nat × String)
+    (ind ind' w w' : Nat) :
+    stripLayout (renderP w (formatDoc ks pre g ind txt)) = stripLayout (renderP w' (formatDoc ks pre g ind' txt)) := by
+  unfold stripLayout
+  rw [C14_format_rendered_content, C14_format_rendered_content]
+
+/-- NO COMMENT LOST: in the class, every comment attached (by the trivia maps) to a token of the tree is a text leaf of the output,
+verbatim, at every width and indent size. -/
+theorem C14_no_comment_lost (ks : List Kind) (pre : Preparse.Result) (g : Green) (h : keepsAll ⟨ks.toArray, pre⟩ g = true)
+    (ti x : Nat) (hti : ti ∈ g.leaves)
+    (hx : x ∈ leadingTrivia ⟨ks.toArray, pre⟩ ti ++ trailingTrivia ⟨ks.toArray, pre⟩ ti) (hc : isComment ⟨ks.toArray, pre⟩ x = true)
+    (ind : Nat) (txt : Nat → Nat × String) (w : Nat) :
+    (txt x).2 ∈ toks (renderP w (formatDoc ks pre g ind txt)) := by
+  rw [C14_format_rendered_content]
+  have hmem : NItem.idx x ∈ expected ⟨ks.toArray, pre⟩ g := by
+    simp only [expected, List.mem_flatMap]
+    refine ⟨ti, hti, ?_⟩
+    simp only [tokItems, triviaItems, List.mem_append, List.mem_map, List.mem_filter]
+    rcases List.mem_append.mp hx with h1 | h1
+    · exact Or.inl (Or.inl ⟨x, ⟨h1, hc⟩, rfl⟩)
+    · exact Or.inr ⟨x, ⟨h1, hc⟩, rfl⟩
+  rw [← C14_format_content_doc ks pre g h] at hmem
+  exact List.mem_map.mpr ⟨_, tok_leaf_of_content _ _ x hmem, rfl⟩
+
+/-- … IN THE SAME ORDER: the comments among the output's leaves are, in order, the comments of the tokens of the tree in order
+(leading before trailing).  (`hl`: the leaves of the tree are syntax tokens — true for every tree `parse_cst` builds.) -/
+theorem C14_comments_in_order (c : Ctx) (g : Green) (h : keepsAll c g = true) (hl : ∀ ti ∈ g.leaves, isComment c ti = false) :
+    (content c (cstToDoc c g)).filter (isCommentItem c) =
+      g.leaves.flatMap (fun ti => triviaItems c (leadingTrivia c ti) ++ triviaItems c (trailingTrivia c ti)) := by
+  rw [C14_format_content c g h, expected]
+  exact flatMap_filter_congr _ _ _ _ (fun ti hti => tokItems_comments c ti (hl ti hti))
+
+/-- TOKENS (partial): the syntax tokens among the output's leaves are the tokens of the tree in source order modulo `norm` (commas
+erased, `{` as a literal).  Missing for the full clause: that re-tokenising the rendered text yields these tokens again (that no two
+adjacent printed texts merge into one token) — decided by the correspondence run with the real parser. -/
+theorem C14_token_sequence_preserved_partial (c : Ctx) (g : Green) (h : keepsAll c g = true)
+    (hl : ∀ ti ∈ g.leaves, isComment c ti = false) :
+    (content c (cstToDoc c g)).filter (fun it => !isCommentItem c it) = g.leaves.flatMap (fun ti => (norm c (.tok ti)).toList) := by
+  rw [C14_format_content c g h, expected]
+  exact flatMap_filter_congr _ _ _ _ (fun ti hti => tokItems_syntax c ti (hl ti hti))
+
+/-- with the real grammar: for every token list, the tree of the ported `parse_cst` has the syntax tokens as leaves
+(`C13_real_grammar_cst_lossless`), so in the class the output's comments are those of `syntaxIndices` in order -/
+theorem C14_comments_in_order_parsed (ks : List Kind) (widths : List Nat) (g : Green)
+    (hg : (Grammar.parseTokens ks widths).b.root = some g) (hleaves : g.leaves = Preparse.syntaxIndices 0 ks)
+    (h : keepsAll ⟨ks.toArray, Preparse.preparse ks⟩ g = true)
+    (hl : ∀ ti ∈ Preparse.syntaxIndices 0 ks, isComment ⟨ks.toArray, Preparse.preparse ks⟩ ti = false) :
+    (content ⟨ks.toArray, Preparse.preparse ks⟩ (formatS ks (Preparse.preparse ks) g)).filter
+        (isCommentItem ⟨ks.toArray, Preparse.preparse ks⟩) =
+      (Preparse.syntaxIndices 0 ks).flatMap (fun ti =>
+        triviaItems ⟨ks.toArray, Preparse.preparse ks⟩ (leadingTrivia ⟨ks.toArray, Preparse.preparse ks⟩ ti) ++
+        triviaItems ⟨ks.toArray, Preparse.preparse ks⟩ (trailingTrivia ⟨ks.toArray, Preparse.preparse ks⟩ ti)) := by
+  have := C14_comments_in_order ⟨ks.toArray, Preparse.preparse ks⟩ g h (by rw [hleaves]; exact hl)
+  rw [hleaves] at this
+  exact this
+
+/-! ### Non-vacuity and the two defects, on the token kinds of real program texts -/
+
+/-- `fn f(x, y){ // c⏎ x + y /* k */ }` -/
+def exKinds : List Kind := [.Function, .Whitespace, .Ident, .ParenBegin, .Ident, .Comma, .Whitespace, .Ident, .ParenEnd, .BlockBegin,
+  .Whitespace, .SingleLineComment, .LineBreak, .Whitespace, .Ident, .Whitespace, .OpSum, .Whitespace, .Ident, .Whitespace,
+  .MultiLineComment, .Whitespace, .BlockEnd, .Eof]
+def exWidths : List Nat := [2, 1, 1, 1, 1, 1, 1, 1, 1, 1, 1, 4, 1, 1, 1, 1, 1, 1, 1, 1, 7, 1, 1, 0]
+
+/-- what the model says about a token list: (#parser errors, in the class?, content of the document, expected content) -/
+def observe (ks : List Kind) (ws : List Nat) : Nat × Bool × List NItem × List NItem :=
+  let c : Ctx := ⟨ks.toArray, Preparse.preparse ks⟩
+  match (Grammar.parseTokens ks ws).b.root with
+  | some g => ((Grammar.parseTokens ks ws).errs.length, keepsAll c g, content c (formatS ks (Preparse.preparse ks) g), expected c g)
+  | none => (0, false, [], [])
+
+/-- the parsed tree is in the class, and the content is: `fn` `f` `(` `x` `y` `)` `{` `// c` `x` `+` `y` `/* k */` `}` (the comma erased) -/
+example : observe exKinds exWidths =
+    (0, true, [.idx 0, .idx 2, .idx 3, .idx 4, .idx 7, .idx 8, .brace, .idx 11, .idx 14, .idx 16, .idx 18, .idx 20, .idx 22],
+              [.idx 0, .idx 2, .idx 3, .idx 4, .idx 7, .idx 8, .brace, .idx 11, .idx 14, .idx 16, .idx 18, .idx 20, .idx 22]) := by
+  decide +kernel
+
+/-- FINDING C14-one-tuple-comma-comment: `let t = (1, /* c */)` — the comment (token 10) hangs on the comma of a one-element tuple,
+which `print_tuple_expr` skips; the tree is outside `keepsAll` and the comment is not in the document. -/
+theorem C14_one_tuple_comma_comment_lost :
+    observe [.Let, .Whitespace, .Ident, .Whitespace, .Assign, .Whitespace, .ParenBegin, .Int, .Comma, .Whitespace, .MultiLineComment,
+      .ParenEnd, .Eof] [3, 1, 1, 1, 1, 1, 1, 1, 1, 1, 7, 1, 0] =
+    (0, false, [.idx 0, .idx 2, .idx 4, .idx 6, .idx 7, .idx 11], [.idx 0, .idx 2, .idx 4, .idx 6, .idx 7, .idx 10, .idx 11]) := by
+  decide +kernel
+
+/-- FINDING C14-paren-type-in-tuple-type: `let t:((float),float) = x` — the parentheses of a parenthesised type inside a tuple type
+are direct children of the `TupleType` node; `print_grouped_list` keeps one opening and one closing delimiter, so tokens 4 and 7 (and
+any comment attached to them) are not in the document. -/
+theorem C14_paren_type_in_tuple_type_dropped :
+    observe [.Let, .Whitespace, .Ident, .Colon, .ParenBegin, .ParenBegin, .FloatType, .ParenEnd, .Comma, .FloatType, .ParenEnd,
+      .Whitespace, .Assign, .Whitespace, .Ident, .Eof] [3, 1, 1, 1, 1, 1, 5, 1, 1, 5, 1, 1, 1, 1, 1, 0] =
+    (0, false, [.idx 0, .idx 2, .idx 3, .idx 5, .idx 6, .idx 9, .idx 10, .idx 12, .idx 14],
+               [.idx 0, .idx 2, .idx 3, .idx 4, .idx 5, .idx 6, .idx 7, .idx 9, .idx 10, .idx 12, .idx 14]) := by
+  decide +kernel
+
+end Mimium.CstPrint
